@@ -223,7 +223,7 @@ View == tree
 (* ---------------- model sanity + scenario emission (one evaluation of WF per state) ---------------- *)
 Sane ==
   LET W == WF(tree) IN
-  /\ IF Len(muts) = 0 /\ ~(W.verdict = "ok" /\ W.grey = {})
+  /\ IF Len(muts) = 0 /\ ~(W.bad = {} /\ W.grey \subseteq {"default-under-logical-type"})
      THEN PrintT(<<"SANITY seed not well formed", seed, W.bad, W.grey>>) /\ FALSE ELSE TRUE
   /\ IF W.verdict \notin {"ok", "bad", "grey"} THEN PrintT(<<"SANITY verdict undefined", seed, muts>>) /\ FALSE ELSE TRUE
   /\ IF Len(muts) = 1 /\ muts[1].rs # {} /\ muts[1].rs \cap W.bad = {}
